@@ -218,12 +218,12 @@ def tier_suffix(tier):
     return "Q" if tier == "quick" else ""
 
 
-def stage_model(tier):
-    """TLC on the bounded abstract model: invariants + declarative step properties"""
+def stage_model(tier, module="MC_Small.tla", base="MC_Small", name="model"):
+    """TLC on a bounded abstract model: invariants + declarative step properties"""
     def go(d):
         w = spec_workdir(d)
-        cfg = "MC_Small%s.cfg" % tier_suffix(tier)
-        p = tlc(w, "MC_Small.tla", cfg, workers=min(8, NCPU), timeout=3600, extra=["-coverage", "1"])
+        cfg = "%s%s.cfg" % (base, tier_suffix(tier))
+        p = tlc(w, module, cfg, workers=min(8, NCPU), timeout=3600, extra=["-coverage", "1"])
         text = p.stdout
         st = parse_tlc_stats(text)
         st["cfg"] = cfg
@@ -232,7 +232,7 @@ def stage_model(tier):
             st["output_tail"] = text[-6000:]
         shutil.rmtree(w, ignore_errors=True)
         return st
-    return cached("model-" + tier, spec_hash() + "-" + str(info()["overhead"]), go)
+    return cached(name + "-" + tier, spec_hash() + "-" + str(info()["overhead"]), go)
 
 
 def parse_coverage(text):
@@ -244,12 +244,13 @@ def parse_coverage(text):
     return cov
 
 
-def stage_dump(tier):
-    """TLC prints every transition of the bounded model; build the covering tour"""
+def stage_dump(tier, module="MC_Small.tla", base="MC_Dump", name="dump", segments=()):
+    """TLC prints every transition of the bounded model; build the covering tour
+    (and, on request, forget / crash segment files)"""
     def go(d):
         w = spec_workdir(d)
-        cfg = "MC_Dump%s.cfg" % tier_suffix(tier)
-        p = tlc(w, "MC_Small.tla", cfg, workers=1, timeout=3600)
+        cfg = "%s%s.cfg" % (base, tier_suffix(tier))
+        p = tlc(w, module, cfg, workers=1, timeout=3600)
         dump = os.path.join(d, "dump.out")
         with open(dump, "w") as fh:
             fh.write(p.stdout)
@@ -264,11 +265,17 @@ def stage_dump(tier):
         st["tour"] = json.loads(q.stdout.strip().splitlines()[-1])
         st["script"] = script
         st["nontrivial"] = count_nontrivial(script)
+        for mode, max_edges in segments:
+            segfile = os.path.join(d, mode + "-segments.ndjson")
+            q = run([sys.executable, os.path.join(ROOT, "tools", "walks.py"), mode, dump, segfile,
+                     "--max-edges", str(max_edges), "--seed", seed], 3600)
+            st[mode] = json.loads(q.stdout.strip().splitlines()[-1])
+            st[mode]["file"] = segfile
         os.remove(dump)
         shutil.rmtree(w, ignore_errors=True)
         return st
     seed = os.environ.get("VERIF_SEED", "0")
-    return cached("dump-" + tier, spec_hash() + "-" + str(info()["overhead"]) + "-" + seed, go)
+    return cached(name + "-" + tier, spec_hash() + "-" + str(info()["overhead"]) + "-" + seed, go)
 
 
 EVICTING = {"insert", "mutate", "set_max_size"}
@@ -314,8 +321,8 @@ def nontrivial_props(line, pre):
             props.add("C17")
     if op in CAP_OPS or ex.get("grew"):
         props.add("C13")
-    if op == "clone":
-        props.add("C14")
+    if op == "clone" or ex.get("nalive", 1) >= 2:
+        props.add("C14")                       # a clone, or any call while two caches live
     if op == "retain" and pre is not None and pre.get("ord"):
         props.add("C15")
     if op in READ_OPS and pre is not None and pre.get("ord"):
@@ -350,15 +357,19 @@ def count_nontrivial(script):
     return {"counts": {p: len(s) for p, s in seen.items()}, "samples": samples}
 
 
+def core_dump(tier):
+    return stage_dump(tier, segments=(("crash", 500 if tier == "quick" else 6000),))
+
+
 def replay_configs(tier):
     hashers = ["const", "onebit", "default"] if tier == "quick" else \
               ["const", "onebit", "identity", "sip", "default", "siprand"]
     return [(h, k) for h in hashers for k in ("owned", "borrowed")]
 
 
-def stage_replay(tier, dumpstage="dump", extra_key=""):
+def stage_replay(tier, dump=None, name="replay", universe="3"):
     """execute the tour on the real cache under every configuration, compare by equality"""
-    dump = stage_dump(tier) if dumpstage == "dump" else dumpstage
+    dump = dump or core_dump(tier)
     script = dump["script"]
     if not os.path.exists(script):
         raise ToolError("tour script vanished: " + script)
@@ -368,7 +379,6 @@ def stage_replay(tier, dumpstage="dump", extra_key=""):
         procs = []
         results = []
         seed = os.environ.get("VERIF_SEED", "0")
-        universe = "3"
         for h, k in cfgs:
             mm = os.path.join(d, "mm-%s-%s.ndjson" % (h, k))
             cmd = [os.path.join(BIN, "run"), "--script", script, "--hasher", h, "--keyform", k,
@@ -395,8 +405,72 @@ def stage_replay(tier, dumpstage="dump", extra_key=""):
             results.append({"hasher": h, "keyform": k, "summary": summ, "mismatches": mismatches,
                             "crashed": crashed, "returncode": p.returncode, "stderr": err[-2000:]})
         return {"configs": results, "script": script}
-    return cached("replay-" + tier + extra_key, source_hash() + "-" + spec_hash() + "-" +
+    return cached(name + "-" + tier, source_hash() + "-" + spec_hash() + "-" +
                   os.environ.get("VERIF_SEED", "0"), go)
+
+
+def stage_segments(tier, segfile, name, universe="3", configs=None):
+    """execute segment files (forgotten iterators, crash sweeps) on the real cache and let
+    TLC validate every recorded event"""
+    configs = configs or replay_configs(tier)
+
+    def go(d):
+        w = spec_workdir(d)
+
+        def one(i, hk):
+            def f():
+                h, k = hk
+                events = os.path.join(d, "events-%d.ndjson" % i)
+                cmd = [os.path.join(BIN, "run"), "--segments", segfile, "--hasher", h, "--keyform", k,
+                       "--universe", universe, "--events", events]
+                p = subprocess.run(cmd, stdout=subprocess.PIPE, stderr=subprocess.PIPE, text=True,
+                                   timeout=3600)
+                res = {"hasher": h, "keyform": k, "rc": p.returncode, "events_file": events,
+                       "segments_file": segfile}
+                if p.returncode != 0:
+                    res["crashed"] = True
+                    res["stderr"] = p.stderr[-1500:]
+                    res["summary"] = None
+                else:
+                    res["summary"] = json.loads(p.stdout.strip().splitlines()[-1])
+                ww = os.path.join(d, "w%d" % i)
+                shutil.copytree(w, ww)
+                res["validation"] = validate_trace(ww, events)
+                shutil.rmtree(ww, ignore_errors=True)
+                with open(events) as fh:
+                    res["events"] = sum(1 for _ in fh)
+                bad_lines = sorted({b["line"] for b in res["validation"]["bad"]})[:20]
+                res["bad_context"] = trace_context(events, bad_lines)
+                os.remove(events)
+                return res
+            return f
+        results = run_parallel([one(i, hk) for i, hk in enumerate(configs)], max(2, NCPU // 3))
+        shutil.rmtree(w, ignore_errors=True)
+        return {"runs": results}
+    return cached(name + "-" + tier, source_hash() + "-" + spec_hash() + "-" +
+                  os.environ.get("VERIF_SEED", "0"), go)
+
+
+def trace_context(events, lines):
+    """for each bad line: the operations of its segment up to that line (replayable)"""
+    if not lines:
+        return {}
+    want = set(lines)
+    out = {}
+    seg = []
+    with open(events) as fh:
+        for i, raw in enumerate(fh, 1):
+            e = json.loads(raw)
+            if e.get("reset"):
+                seg = []
+                continue
+            o = {"c": e["c"], "d": e.get("d", 0), "a": e["a"]}
+            if e["panic"]["armed"]:
+                o["crash"] = {"kind": e["panic"]["armed"], "n": e["panic"]["n"]}
+            seg.append(o)
+            if i in want:
+                out[str(i)] = list(seg)
+    return out
 
 
 def drive_plan(tier, seed):
@@ -442,6 +516,21 @@ def validate_trace(workdir, trace, timeout=3600, cfg="LruMemTrace.cfg", module="
     return {"done": done, "bad": bad, "ok": ok, "tail": "" if ok else p.stdout[-3000:]}
 
 
+def drop_partial_last_line(path):
+    with open(path, "rb") as fh:
+        data = fh.read()
+    keep = data[:data.rfind(b"\n") + 1]
+    lines = keep.splitlines()
+    while lines:
+        try:
+            json.loads(lines[-1])
+            break
+        except Exception:
+            lines.pop()
+    with open(path, "wb") as fh:
+        fh.write(b"\n".join(lines) + (b"\n" if lines else b""))
+
+
 def run_parallel(jobs, nproc):
     """jobs: list of callables; run with a pool of threads (they wait on subprocesses)"""
     from concurrent.futures import ThreadPoolExecutor
@@ -475,6 +564,8 @@ def stage_drive(tier, name="drive", plan=None):
                     res["summary"] = None
                 else:
                     res["summary"] = json.loads(p.stdout.strip().splitlines()[-1])
+                if p.returncode != 0:
+                    drop_partial_last_line(trace)
                 ww = os.path.join(d, "w%d" % i)
                 shutil.copytree(w, ww)
                 res["validation"] = validate_trace(ww, trace)
@@ -649,7 +740,7 @@ def collect_core(prop, tier, fnd, cov):
             raise ToolError("the bounded model violates the specification's own properties "
                             "(specification defect, not a code defect):\n" +
                             model.get("output_tail", "")[-2500:])
-    dump = stage_dump(tier)
+    dump = core_dump(tier)
     cov["edges"] = dump["tour"]["edges"]
     cov["tour_steps"] = dump["tour"]["steps"]
     nt = dump["nontrivial"]
@@ -686,7 +777,7 @@ def collect_core(prop, tier, fnd, cov):
     return cov
 
 
-def collect_drive(prop, drv, fnd, cov, key="traces_validated_against_impl"):
+def collect_drive(prop, drv, fnd, cov, key="traces_validated_against_impl", crash_owner="C07"):
     traces = 0
     events = 0
     maxlen = 0
@@ -694,7 +785,7 @@ def collect_drive(prop, drv, fnd, cov, key="traces_validated_against_impl"):
     for r in drv["runs"]:
         v = r["validation"]
         if r.get("driver_crashed"):
-            if prop in ("C07", "C16", "C17"):
+            if prop == crash_owner:
                 fnd.add("driver_crash", "driver process died (rc %s) for %s: %s" %
                         (r["driver_rc"], json.dumps(r["job"]), r.get("stderr", "")[-300:]),
                         {"kind": "drive", "job": r["job"]})
@@ -780,6 +871,10 @@ RULES = {
     "C10": "as C01; non-trivial = distinct rejected insert/try_insert calls",
     "C11": "as C01; non-trivial = distinct mutate calls on a present key",
     "C13": "as C01; non-trivial = distinct capacity operations and growing insertions",
+    "C12": "every edge of the iterator model (all words over next/next_back up to len+2/3, 7 kinds) replayed under all configurations + iterator runs inside random traces; non-trivial = distinct (recency order, kind, word)",
+    "C14": "every edge of the two-cache model replayed + random traces with up to 4 live caches; non-trivial = distinct clone calls and distinct calls made while two caches are alive",
+    "C16": "crash sweep: for sampled (state, op) edges of the bounded model and each callback kind, a panic at the n-th callback for n = 1.. until the op completes; plus random crash injection in long traces; non-trivial = injected panics that actually fired (each a distinct state/op/kind/n)",
+    "C17": "every forget edge of the iterator model (state x kind x word) as its own segment followed by continued use and drop, validated by TLC; plus random traces forgetting 35% of iterators; non-trivial = distinct forget segments",
     "C15": "as C01; non-trivial = distinct retain calls (state x subset) on a non-empty cache",
     "C19": "as C01; non-trivial = distinct shared-reference calls on a non-empty cache",
     "C20": "as C01; non-trivial = distinct steps with departures or a table rebuild",
